@@ -262,6 +262,81 @@ def check_m4(ctx, prog):
            {"functions": sorted(readers)})
 
 
+WRITES_ARG = {"strtok": [0], "strtok_r": [0], "strsep": [0], "strcpy": [0], "strncpy": [0], "strcat": [0], "strncat": [0],
+              "stpcpy": [0], "memcpy": [0], "memmove": [0], "memset": [0], "sprintf": [0], "snprintf": [0], "free": [0],
+              "realloc": [0], "putenv": [0], "fgets": [0], "read": [1], "getcwd": [0], "bzero": [0]}
+ENV_SOURCES = ("getenv", "secure_getenv")
+
+
+def check_env_strings(ctx, prog):
+    """M4g: strings that belong to the live environment (what getenv() returns) are only read.  Flow-insensitive taint per function:
+    a local initialised or assigned from getenv() - directly, through another tainted local, pointer arithmetic or ?: - is tainted;
+    a tainted pointer must not be written through, handed to a library function in an argument position that function writes
+    (strtok, strcpy destination, ...), or freed; handed to a library function of this project, that function's parameter is
+    tainted in turn (three levels)."""
+    lib = [F for F in prog.funcs_all if F.file.startswith(prog.root) and "/test/" not in F.file and "/examples/" not in F.file]
+    byname = {F.name: F for F in lib}
+    sources = []
+    hits = []
+
+    def tainted_expr(F, e, tv):
+        e = strip(e)
+        k = e["k"]
+        if k in CALL_KINDS and e.get("callee") in ENV_SOURCES:
+            return True
+        if k == "DeclRefExpr":
+            return e.get("did") in tv
+        if k == "ConditionalOperator":
+            return tainted_expr(F, e["c"][1], tv) or tainted_expr(F, e["c"][2], tv)
+        if k == "BinaryOperator" and e["op"] in ("+", "-", ","):
+            return any(tainted_expr(F, c, tv) for c in e["c"])
+        if k == "UnaryOperator" and e.get("op") in ("++", "--"):
+            return tainted_expr(F, e["c"][0], tv)
+        return False
+
+    def analyse(F, seed_params, depth, via):
+        tv = set(seed_params)
+        changed = True
+        while changed:
+            changed = False
+            for n in F.nodes.values():
+                dst = src = None
+                if n["k"] == "VarDecl" and n.get("c"):
+                    dst, src = n.get("did"), n["c"][0]
+                elif n["k"] == "BinaryOperator" and n["op"] == "=" and strip(n["c"][0])["k"] == "DeclRefExpr":
+                    dst, src = strip(n["c"][0]).get("did"), n["c"][1]
+                if dst is not None and dst not in tv and tainted_expr(F, src, tv):
+                    tv.add(dst)
+                    changed = True
+        for n in F.nodes.values():
+            k = n["k"]
+            if k in ("BinaryOperator", "CompoundAssignOperator") and n.get("op", "").endswith("=") and n["op"] not in ("==", "!=", "<=", ">="):
+                l = strip(n["c"][0])
+                if l["k"] == "ArraySubscriptExpr" and tainted_expr(F, l["c"][0], tv) or l["k"] == "UnaryOperator" and l.get("op") == "*" and tainted_expr(F, l["c"][0], tv):
+                    hits.append("%s: %s%s" % (F.name, expr_str(n)[:50], via))
+            if k in CALL_KINDS:
+                callee = n.get("callee")
+                args = n["c"][1:]
+                if callee in WRITES_ARG:
+                    for i in WRITES_ARG[callee]:
+                        if i < len(args) and tainted_expr(F, args[i], tv):
+                            hits.append("%s: %s%s" % (F.name, expr_str(n)[:60], via))
+                elif callee in byname and depth < 3:
+                    G = byname[callee]
+                    seeds = {G.params[i]["did"] for i, a in enumerate(args) if i < len(G.params) and tainted_expr(F, a, tv)}
+                    if seeds:
+                        analyse(G, seeds, depth + 1, via + " <- %s" % F.name)
+
+    for F in lib:
+        calls = [n for n in F.nodes.values() if n["k"] in CALL_KINDS and n.get("callee") in ENV_SOURCES]
+        if calls:
+            sources += ["%s: %s" % (F.name, expr_str(c)[:40]) for c in calls]
+            analyse(F, set(), 0, "")
+    ctx.ob("C12.M4g", "library: strings of the live environment", "what getenv() returns is only read - never tokenised in place, copied "
+           "over, written through or freed (the caller's environment is exactly what it was)", not hits,
+           {"getenv_sites": sources[:6], "writes": sorted(set(hits))[:4]}, nontrivial=bool(sources))
+
+
 def check(ctx):
     res, F, I = check_m1(ctx, "posix-mt")
     if res is None:
@@ -271,4 +346,5 @@ def check(ctx):
     check_m2(ctx, prog, res, F)
     check_m3(ctx, prog)
     check_m4(ctx, prog)
+    check_env_strings(ctx, prog)
     ctx.floor("C12.M1", 8)
